@@ -166,6 +166,18 @@ theorem merge_of_any_graphs_keeps_indices_in_range (x hx : GX L D) (h : MSX x) (
 theorem panics_exactly_at_with_removed_slots (x : GX L D) (op : Op L D) :
     (stepX x (.core op)).2 = none ↔ PanicsX x op := panicsX_iff x op
 
+/-- **`merge` ends by itself on every pair of graphs** — cyclic right graphs included: what stops `merge_rec` is its table (a
+    vertex in it is not entered again, every call that goes on puts one in), and the fuel `cap + 1` the model starts it with
+    is never what ends the run: every larger fuel gives the same run (Core/MergeFuel.lean) -/
+theorem merge_terminates_without_the_fuel (x hx : GX L D) (f left right : Nat) (hf : cap hx.g + 1 ≤ f) :
+    P.runT stepX (mergeRecX (viewOfX hx) f left right []) x =
+      P.runT stepX (mergeRecX (viewOfX hx) (cap hx.g + 1) left right []) x := mergeX_fuel x hx f left right hf
+
+/-- **a script on any graph** — with removed slots, beyond the group limit, after a panic: `deployX` (Algo/ScriptHoles.lean) is the
+    same front end over the total step; however the text ends, the graph keeps the invariant -/
+theorem script_on_any_graph_keeps_indices_in_range (text : List Char) (x : GX Lb.Label Hx.Hex) (h : MSX x) :
+    MSX (Ss.deployX text x).1.x := Ss.msx_deployX text x h
+
 /-! non-vacuity: the smallest situation in which `join` runs. Left: ν0 with kids ν1 (label 0) and ν2 (label 1). A right
     graph whose root has *one* kid under both labels maps that kid to ν1 in the first loop; the second loop then finds ν2
     under label 1 and calls `join(ν2, ν1)` — the step `fix 0 1 1`: the edge into ν1 is re-targeted to ν2 and slot 1 is
